@@ -998,6 +998,10 @@ def run(ctx):
     ctx.attempt(r98, ctx)
     ctx.attempt(r910, ctx)
     ctx.attempt(r911, ctx)
+    ctx.rule("R-9.13", "a path accepted into an ensemble has non-zero weight there: the entries of calc_cv_vector use the same inclusive crossing convention as the acceptance test (shared with C10 R-10.4)", floor=10)
+    from . import c10
+    from .shared import RuleProxy
+    ctx.attempt(c10.r104, RuleProxy(ctx, "R-9.13", " - a path whose maximum lies exactly on its interface is accepted by the move's crossing test (minimum < interface <= maximum) yet gets weight 0 in its own ensemble"))
     from . import c12
     from .shared import RuleProxy
     ctx.attempt(c12.r1214, RuleProxy(ctx, "R-9.12", " (a zero swap ignores propagate's flag and recognises an unfinished trajectory only by length == maxlen: a shorter one is accepted although it ends inside the interfaces)"))
@@ -1008,6 +1012,7 @@ def run(ctx):
 
 
 VARIANTS = [
+    B("c09-own-ensemble-weight-strict", TIS, "            cv.append(1.0 if intf_i <= path_max else 0.0)", "            cv.append(1.0 if path.success(intf_i) else 0.0)", "R-9.13", control=True, why="seeded C09_f (Path.success tests ordermax > interface strictly)"),
     B("c09-ase-one-frame-short", ASE, "        for i in range(self.subcycles * path.maxlen):", "        for i in range(self.subcycles * (path.maxlen - 1)):", "R-9.12", why="seeded C09_e"),
     B("c09-metropolis-counts-end-points", TIS, "            int((path.length - 2) / ens_set[\"rgen\"].random()) + 2,", "            int((path.length - 1) / ens_set[\"rgen\"].random()) + 2,", "R-9.11", control=True),
     B("c09-metropolis-offset-one", TIS, "            int((path.length - 2) / ens_set[\"rgen\"].random()) + 2,", "            int((path.length - 2) / ens_set[\"rgen\"].random()) + 1,", "R-9.11"),
